@@ -27,7 +27,7 @@ UNITS = {
 PROPS = {
     'C03': dict(
         units=[('codec_mut', r'(with_capacity|read_push|push_null|Version\.|impl Version)'), ('event', r'(parse_event__(pre|post|start|item|end)|C03)')],
-        kani=['kshim_byteorder_be'],
+        kani=['kshim_byteorder_be', 'kcodec_start_read_push', 'kcodec_end_read_push', 'kcodec_pre_read_push', 'kcodec_item_read_push', 'kcodec_post_read_push'],
     ),
     'C01': dict(
         units=[('ser', r'(write|payload_sizes|gecko_codes|game_start|game_end|PayloadSizes|frame_counts|C01|Frame::len)'),
